@@ -203,6 +203,40 @@ CLAIMED['C19'] = dict(
     note='4 known findings: non-block commands (Var) are constructed '
          'without the encoding and Var.render reaches html_quote without '
          'it')
+CLAIMED['C17'] = dict(
+    technique='enumeration of stores to shared objects in render-reachable '
+              'code; path-sensitive re-cook obligation; width/set '
+              'agreement; may-alias analysis of caller data; '
+              'mutable-default query',
+    text='Partial: no function reachable while rendering stores to an '
+         'attribute or item of the template, of a compiled tag object, of a '
+         'class or of a module-level container; every method that assigns '
+         'the source re-cooks on every path to its exit; __getstate__ skips '
+         'exactly _v_/_p_ prefixed attributes with a matching slice width; '
+         'read_raw stores nothing and reads the file; no render code '
+         'mutates an object that may alias namespace values, call '
+         'arguments or client method results; mutable defaults are never '
+         'mutated. Not decided: equality of outputs across histories.',
+    ref='4 C17, App. B',
+    note='render phase by resolved reachability plus the per-render helper '
+         'classes')
+CLAIMED['C18'] = dict(
+    technique='lock-scope and publication-order check (path-sensitive), '
+              'who-may-write query, shared-object store enumeration, '
+              'locked-only closure on the reverse call graph, reachability '
+              'from the locked region',
+    text='Partial: both volatile stores of cook are inside the compile lock '
+         'and _v_blocks precedes _v_cooked on every path, readers test the '
+         'flag published last; only cook (and freshly constructed section '
+         'templates) write the compiled state; no render-time store to an '
+         'object shared by concurrent renders; the tag registry is written '
+         'only at import time or by functions whose every caller chain '
+         'passes through cook; nothing reachable under the non-reentrant '
+         'lock re-acquires it; each top-level call builds its own '
+         'namespace. Not decided: schedules, interleavings inside '
+         'dependencies, linearizability as a whole.',
+    ref='4 C18',
+    note='assumes GIL atomicity of single attribute stores')
 PENDING = {}
 NA = {
     'C16': 'numerical identities over run-time data (sums, means, n vs n-1, '
